@@ -80,6 +80,14 @@ class Analyzer(object):
         self.summaries = {}         # func qualname -> list[Raise]
         self.in_progress = set()
         self.suppress = suppress or {}      # (func qualname, construct) -> reason
+        # the same keys with the function's local names wildcarded: renaming a local does not invalidate a justification
+        from . import canon
+        self.suppress_shapes = {}
+        for key, reason in self.suppress.items():
+            q, text = key[0], key[-1]
+            wild = canon.baseline_locals(q)
+            if wild is not None:
+                self.suppress_shapes[key[:-1] + (canon.shape(text, wild),)] = (key, reason)
         self.used_suppressions = []
         self.user_callables = set(user_callables)   # (func qualname, name) params that are user-supplied callables/objects
         self.stats = {"calls": 0, "resolved": 0, "unresolved": 0, "functions": 0, "primitive_sites": 0}
@@ -929,6 +937,16 @@ class Walker(object):
             reason = self.an.suppress.get(key) or self.an.suppress.get((self.f.qualname, exc, c))
             self.an.used_suppressions.append((self.f.qualname, c, exc, reason))
             return []
+        if self.an.suppress_shapes:
+            from . import canon
+            a = self.f.node.args
+            params = set(x.arg for x in a.posonlyargs + a.args + a.kwonlyargs)
+            wild = canon.local_names(self.f.node) - params
+            sh = canon.shape(c, wild)
+            hit = self.an.suppress_shapes.get((self.f.qualname, sh)) or self.an.suppress_shapes.get((self.f.qualname, exc, sh))
+            if hit is not None:
+                self.an.used_suppressions.append((self.f.qualname, hit[0][-1], exc, hit[1]))
+                return []
         return [Raise(exc, "%s:%d %s" % (self.f.module.relpath, getattr(node, "lineno", 0), self.f.qualname), c + (" [" + why + "]" if why else ""))]
 
     def facts_at(self, node):
@@ -985,6 +1003,13 @@ class Walker(object):
             return out
         if isinstance(st, ast.Assert):
             key = (self.f.qualname, src(st).split("\n")[0][:100])
+            if key not in self.an.suppress and self.an.suppress_shapes:
+                from . import canon
+                a_ = self.f.node.args
+                wild_ = canon.local_names(self.f.node) - set(x.arg for x in a_.posonlyargs + a_.args + a_.kwonlyargs)
+                hit_ = self.an.suppress_shapes.get((self.f.qualname, canon.shape(key[1], wild_)))
+                if hit_ is not None:
+                    key = hit_[0]
             if key in self.an.suppress:
                 self.an.used_suppressions.append((self.f.qualname, key[1], "AssertionError", self.an.suppress[key]))
                 return self.expr(st.test)
@@ -1253,8 +1278,13 @@ class Walker(object):
         if isinstance(e.slice, ast.BinOp) and isinstance(e.slice.op, ast.Sub) and isinstance(e.slice.left, ast.Name) \
                 and isinstance(e.slice.right, ast.Constant) and e.slice.right.value == 1:
             i = e.slice.left.id
-            if ("%s > 0" % i, True) in fs and (("%s < len(%s)" % (i, base), True) in fs or True):
-                return ("%s > 0" % i, True) in fs
+            if ("%s > 0" % i, True) in fs:
+                return True
+            # X[i - 1] with i the enumerate() index over X (or sorted(X): same length) and i known not to be 0
+            if n is not None and self.enum_index_over(n, i, base):
+                if any((t.replace(" ", ""), tv) in (("%s==0" % i, False), ("%s!=0" % i, True), ("0<%s" % i, True), ("%s>=1" % i, True), ("not%s" % i, False), (i, True),
+                                                    ("%s<=0" % i, False), ("0==%s" % i, False), ("0!=%s" % i, True), ("%s<1" % i, False)) for t, tv in fs):
+                    return True
         # Y = X.split(sep) ... Y[1] under `sep in X`
         if k == 1 and isinstance(e.value, ast.Name) and n is not None:
             cfg, facts, rd, ix = self.an.flow(self.f)
@@ -1269,6 +1299,27 @@ class Walker(object):
                     return False
             return True
         return False
+
+    def enum_index_over(self, n, i, base):
+        """Every reaching definition of `i` at n is the index of `for i, x in enumerate(<base> | sorted(<base>))`."""
+        cfg, facts, rd, ix = self.an.flow(self.f)
+        defs = rd.at(n, i)
+        if not defs:
+            return False
+        for d in defs:
+            if not d or cfg.nodes[d].kind != "for":
+                return False
+            fo = cfg.nodes[d].ast
+            it = fo.iter
+            if not (isinstance(it, ast.Call) and src(it.func) == "enumerate" and len(it.args) == 1 and not it.keywords
+                    and isinstance(fo.target, ast.Tuple) and isinstance(fo.target.elts[0], ast.Name) and fo.target.elts[0].id == i):
+                return False
+            inner = it.args[0]
+            if isinstance(inner, ast.Call) and src(inner.func) in ("sorted", "list", "tuple", "reversed") and len(inner.args) == 1:
+                inner = inner.args[0]
+            if src(inner) != base:
+                return False
+        return True
 
     def subscript(self, e):
         if not isinstance(e.ctx, (ast.Load, ast.Del)) and not isinstance(e.ctx, ast.Load):
